@@ -151,6 +151,17 @@ Theorem asmatrix_spec : forall bs bidx data r c, length bs = length bidx ->
 Proof. exact asmatrix_spec_l. Qed.
 Print Assumptions asmatrix_spec.
 
+(* ---- histories on one MLMatrix object: in the model a query is a function of the structure
+   and the CURRENT data tensor only; after an accepted assignment `M.data = d` (preceded by any
+   queries/assignments) and followed by queries only, the object denotes d.  The tie replays
+   such histories on one implementation object and compares every answer with
+   asmatrix/matvec/nonzero/reorder of the model at [hist_run] of the prefix. ---- *)
+Theorem history_last_assignment : forall bs bidx data before d after,
+  set_ok bidx d = true -> Forall (fun op => op = OpQuery) after ->
+  hist_run bs bidx data (before ++ OpSet d :: after) = d.
+Proof. exact hist_last_set_l. Qed.
+Print Assumptions history_last_assignment.
+
 (* NOT PROVED (no theorem; exercised by the exact tie and the dense oracle on every run):
    reorder_spec       -- entries of reorder_asmatrix at permuted digits equal the original entries
                          (needs: product over a permuted list of levels = permuted selections);
